@@ -37,17 +37,26 @@ Theorem index_truncated_refuted :
 Proof. exact index_truncated_refuted_pinned. Qed.
 Print Assumptions index_truncated_refuted.
 
-(* nil dereference is recoverable as many times as it happens in one thread iff
-   the signal mask is restored when the handler is left by a non-local jump *)
-Theorem fault_recoverable_repeatedly_with_saved_mask : forall n,
-  dead (faults true n sig_init) = false /\ recovered (faults true n sig_init) = n.
-Proof. exact faults_savemask. Qed.
-Print Assumptions fault_recoverable_repeatedly_with_saved_mask.
+(* nil dereference is recoverable as many times as it happens in one thread when
+   the signal stays deliverable after the handler was left by a non-local jump:
+   the handler is installed with SA_NODEFER (what the tree does on Linux since
+   66e5301) or the mask is saved by sigsetjmp and restored by siglongjmp *)
+Theorem fault_recoverable_repeatedly : forall nodefer savemask n,
+  recoverable_config nodefer savemask = true ->
+  dead (faults nodefer savemask n sig_init) = false
+  /\ recovered (faults nodefer savemask n sig_init) = n.
+Proof. exact faults_recoverable. Qed.
+Print Assumptions fault_recoverable_repeatedly.
 
-(* finding F15: with sigsetjmp(jb, 0), as the tree calls it, the second fault
-   in one thread finds SIGSEGV blocked and kills the process *)
+Example fault_recoverable_nontrivial :
+  recoverable_config true false = true /\ recovered (faults true false 5 sig_init) = 5%nat.
+Proof. split; reflexivity. Qed.
+
+(* finding F15 (repaired): with default flags and sigsetjmp(jb, 0), as the pinned
+   tree had it, the second fault in one thread finds SIGSEGV blocked and kills
+   the process *)
 Theorem fault_recoverable_repeatedly_refuted :
-  dead (faults false 2 sig_init) = true /\ recovered (faults false 2 sig_init) = 1%nat.
+  dead (faults false false 2 sig_init) = true /\ recovered (faults false false 2 sig_init) = 1%nat.
 Proof. exact faults_nomask_second_dies. Qed.
 Print Assumptions fault_recoverable_repeatedly_refuted.
 
